@@ -256,8 +256,8 @@ STATUS_READS = [('status', lambda b: b.status), ('shapes', lambda b: b.shapes), 
 
 def history(ctx, fmt, workdir, events):
     rng = ctx.rng
-    n = rng.randint(1, 5)
-    mp = rng.choice([0, 0, 1, 1, 2, 2, 3, n])
+    n = rng.randint(1, 8)
+    mp = rng.choice([0, 0, 1, 1, 2, 2, 3, 3, 4, n])
     w = World(fmt, n, mp, workdir, per_label=rng.random() < 0.5)
     first = True
 
@@ -270,6 +270,11 @@ def history(ctx, fmt, workdir, events):
         ev['ver'] = ev.pop('fver')
         events.append(ev)
 
+    plan = []
+    if n >= 4 and rng.random() < 0.35:
+        # a label in the later part is loaded first, then a slice spanning it is selected: the update meets an already loaded Frame after several reads
+        late = rng.randint(max(2, min(mp, n - 1)), n)
+        plan = [('get', late), ('slice', rng.randint(1, max(1, late - max(mp, 1))), n)]
     for step in range(rng.randint(3, 12)):
         i = rng.randrange(len(w.buses))
         bus = w.buses[i]
@@ -278,8 +283,18 @@ def history(ctx, fmt, workdir, events):
         q = rng.random()
         if not pre['labels']:
             continue
+        forced = None
+        if plan and i == 0:
+            forced = plan.pop(0)
+            q = 0.0 if forced[0] == 'get' else 0.4
+        elif plan:
+            i = 0
+            bus = w.buses[0]
+            pre, _ = w.project(bus)
+            forced = plan.pop(0)
+            q = 0.0 if forced[0] == 'get' else 0.4
         if q < 0.34:
-            l = rng.choice(pre['labels'])
+            l = forced[1] if forced else rng.choice(pre['labels'])
             route = rng.choice(['getitem', 'loc', 'iloc', 'get', 'getitem'])
             out, got = w.get(i, l, route)
             post, problems = w.project(bus)
@@ -289,6 +304,11 @@ def history(ctx, fmt, workdir, events):
             if rng.random() < 0.5:
                 sel = [x for x in pre['labels'] if x in sel]
             route = rng.choice(['getitem', 'loc', 'iloc', 'slice', 'locslice', 'mask', 'array', 'index_key'])
+            if forced:
+                sel = [x for x in pre['labels'] if forced[1] <= x <= forced[2]]
+                route = rng.choice(['slice', 'locslice'])
+                if len(sel) < 2:
+                    sel = list(pre['labels'])[:2]
             out, r = w.select(i, sel, route)
             if route in ('slice', 'locslice') and out == 'ok':
                 sel = [int(str(x)[1:]) for x in r.index]
@@ -443,12 +463,14 @@ def main(ctx):
     ctx.note('store formats exercised: %s' % ', '.join(fmts))
     for mp in (0, 1, 2):
         ctx.model_check('MC_C17', 'MC_C17_mp%d.cfg' % mp if quick else 'MC_C17_mp%d_thorough.cfg' % mp, timeout=12000, heap='12g', label='max_persist=%s' % (mp or 'None'))
+    ctx.model_check('MC_C17', 'MC_C17_wide.cfg', timeout=12000, heap='12g', label='5 labels, max_persist=2, one Bus, depth 3')
+    ctx.model_check('MC_C17', 'MC_C17_wide3.cfg', timeout=12000, heap='12g', label='5 labels, max_persist=3, one Bus, depth 3')
     ctx.exhaustive = True
     workdir = tlc.subdir('c17-stores')
     # R
     nb = 0
-    for mp in (0, 1, 2):
-        behs, _ = tlc.simulate('MC_C17', 'MC_C17_mp%d.cfg' % mp, num=40 if quick else 1500, depth=7, seed=ctx.seed + mp)
+    for mp, cfgname in ((0, 'MC_C17_mp0.cfg'), (1, 'MC_C17_mp1.cfg'), (2, 'MC_C17_mp2.cfg'), (2, 'MC_C17_wide.cfg'), (3, 'MC_C17_wide3.cfg')):
+        behs, _ = tlc.simulate('MC_C17', cfgname, num=40 if quick else 1500, depth=7, seed=ctx.seed + mp)
         for beh in behs:
             fmt = ctx.rng.choice(fmts if nb % 3 else ['zip_pickle'])
             d = os.path.join(workdir, 'r%d' % nb)
@@ -493,7 +515,7 @@ def main(ctx):
                           case={k: ev[k] for k in ('name', 'fmt', 'route', 'sel', 'pre', 'coherent', 'ver', 'labels_written') if k in ev and ev[k] != []},
                           actual={k: ev[k] for k in ('outcome', 'got', 'post', 'new', 'labels_read', 'equal', 'ok') if k in ev}, clause=rej[ev['id']][0], expected=rej[ev['id']][1])
     ctx.sample({'leg': 'V', 'event': {k: events[0][k] for k in ('name', 'fmt', 'sel', 'pre', 'post', 'outcome')}})
-    return ctx.finish(rule='M: 3 labels, <=2 live Bus objects, max_persist None / 1 / 2, every history of <=5 calls (single label, label lists in any order, derivations) interleaved with touch (newer / older mtime), rewrite, delete; '
+    return ctx.finish(rule='M: 3 labels, <=2 live Bus objects, max_persist None / 1 / 2, every history of <=5 calls (plus 5 labels, one Bus, max_persist 2 / 3, depth 3) (single label, label lists in any order, derivations) interleaved with touch (newer / older mtime), rewrite, delete; '
                            'R: simulated behaviours driven through real Buses over zip pickle / csv / tsv and sqlite stores with the cache state compared after each step; '
-                           'V: random histories (1-5 labels, max_persist None / 1 / 2 / 3 / n, 8 selection routes, get(), items() / values, 14 status reads, 7 derivation routes, file touched newer / older, rewritten, deleted) validated statefully; write / reopen round trips of varied Frames per format',
+                           'V: random histories (1-8 labels, max_persist None / 1 / 2 / 3 / 4 / n, a third of them starting with a late label loaded first and a slice spanning it, 8 selection routes, get(), items() / values, 14 status reads, 7 derivation routes, file touched newer / older, rewritten, deleted) validated statefully; write / reopen round trips of varied Frames per format',
                       trusted=['TLC 1.8 + CommunityModules', 'os.utime / os.path.getmtime', 'assumption: a modified file never regains exactly the mtime the Store recorded'])
